@@ -1270,16 +1270,18 @@ impl ArchiveBuilder {
                 flags |= BlockEntry::FLAG_SECTOR_CRC;
             }
 
-            // Reserve space for sector offset table and CRC table if enabled
-            let offset_table_size = (sector_count + 1) * 4;
-            let crc_table_size = if self.generate_crcs {
-                sector_count * 4
+            // The sector offset table has one entry more than there are sectors. Files
+            // with sector checksums have a further entry: the last two entries delimit
+            // the checksum sector that follows the last data sector.
+            let offset_entries = if self.generate_crcs {
+                sector_count + 2
             } else {
-                0
+                sector_count + 1
             };
-            let data_start = offset_table_size + crc_table_size;
+            let offset_table_size = offset_entries * 4;
+            let data_start = offset_table_size;
 
-            let mut sector_offsets = vec![0u32; sector_count + 1];
+            let mut sector_offsets = vec![0u32; offset_entries];
             let mut sector_data = Vec::new();
             let mut sector_crcs = if self.generate_crcs {
                 Vec::with_capacity(sector_count)
@@ -1294,13 +1296,6 @@ impl ArchiveBuilder {
                 let sector_bytes = &file_data[sector_start..sector_end];
 
                 *offset = (data_start + sector_data.len()) as u32;
-
-                // Calculate CRC for uncompressed sector if enabled
-                if self.generate_crcs {
-                    // MPQ uses ADLER32 for sector checksums
-                    let crc = adler2::adler32_slice(sector_bytes);
-                    sector_crcs.push(crc);
-                }
 
                 // Compress sector if needed
                 let compressed_sector = if *compression != 0 && !sector_bytes.is_empty() {
@@ -1319,21 +1314,40 @@ impl ArchiveBuilder {
                     sector_bytes.to_vec()
                 };
 
+                // The sector checksum is the ADLER32 of the sector as it is stored,
+                // before encryption: readers check it after decrypting the sector
+                // and before decompressing it
+                if self.generate_crcs {
+                    sector_crcs.push(adler2::adler32_slice(&compressed_sector));
+                }
+
                 sector_data.extend_from_slice(&compressed_sector);
             }
 
             // Set last offset
             sector_offsets[sector_count] = (data_start + sector_data.len()) as u32;
 
-            // Log CRC generation if enabled
-            if self.generate_crcs {
+            // The checksum sector is compressed if that makes it smaller and, unlike
+            // the data sectors, never encrypted
+            let checksum_sector = if self.generate_crcs {
                 log::debug!(
                     "Generated {} sector CRCs for file {}, first few: {:?}",
                     sector_count,
                     archive_name,
                     &sector_crcs[..5.min(sector_crcs.len())]
                 );
-            }
+
+                let mut checksum_bytes = Vec::with_capacity(sector_count * 4);
+                for crc in &sector_crcs {
+                    checksum_bytes.extend_from_slice(&crc.to_le_bytes());
+                }
+                let stored = compress(&checksum_bytes, crate::compression::flags::ZLIB)?;
+                sector_offsets[sector_count + 1] =
+                    (data_start + sector_data.len() + stored.len()) as u32;
+                stored
+            } else {
+                Vec::new()
+            };
 
             // Encrypt if needed
             if *encrypt {
@@ -1351,9 +1365,9 @@ impl ArchiveBuilder {
                 let offset_key = key.wrapping_sub(1);
                 self.encrypt_data_u32(&mut sector_offsets, offset_key);
 
-                // Encrypt each sector using the original (unencrypted) offsets
+                // Encrypt each data sector using the original (unencrypted) offsets
                 let mut encrypted_sectors = Vec::new();
-                for (i, offset_pair) in original_offsets.windows(2).enumerate() {
+                for (i, offset_pair) in original_offsets[..=sector_count].windows(2).enumerate() {
                     let start = (offset_pair[0] - data_start as u32) as usize;
                     let end = (offset_pair[1] - data_start as u32) as usize;
 
@@ -1371,18 +1385,15 @@ impl ArchiveBuilder {
                 writer.write_u32_le(*offset)?;
             }
 
-            // Write CRC table if enabled
-            if self.generate_crcs {
-                for crc in &sector_crcs {
-                    writer.write_u32_le(*crc)?;
-                }
-            }
-
             // Write sector data
             writer.write_all(&sector_data)?;
 
-            // Return size NOT including CRC table (offset table + sector data only)
-            let total_size = offset_table_size + sector_data.len();
+            // Write the checksum sector if enabled
+            writer.write_all(&checksum_sector)?;
+
+            // The stored size covers everything that belongs to the file: offset
+            // table, data sectors and checksum sector
+            let total_size = offset_table_size + sector_data.len() + checksum_sector.len();
             Ok((total_size, flags))
         }
     }
